@@ -232,7 +232,7 @@ def _accepting(items):
 @hx.harness(props=['C01', 'C02', 'C03', 'C10'], targets=_TG, items=lambda: _items(SCALAR_FIELDS) + ([] if hx.ASPECT in ('C02', 'C10') else ['E.ts', 'E.byt']),
             bound='example value of one primitive field (present or absent): null, bool, any int, string <= %d chars over '
                   '{a,b,1,space,",\\}; also for the inherited field of a child struct' % NSTR, outside=_OUT,
-            budget=(150, 400))
+            budget=(400, 900))
 def scalar_example(present: bool, v: Union[None, bool, int, str]) -> bool:
     """
     pre: _str_ok(v)
@@ -245,7 +245,7 @@ def scalar_example(present: bool, v: Union[None, bool, int, str]) -> bool:
 
 @hx.harness(props=['C01', 'C02', 'C03', 'C10'], targets=_TG, items=lambda: [x.split('@')[0] for x in _accepting(['E.f@float', 'E.i@float', 'E.s@float'])],
             bound='float example value (any finite binary64, IEEE-exact) for a float, an int and a string field',
-            outside=_OUT, budget=(150, 400), glue=['pin_ieee_floats'])
+            outside=_OUT, budget=(400, 900), glue=['pin_ieee_floats'])
 def float_example(v: float) -> bool:
     """
     pre: v == v and abs(v) < 1e300
@@ -262,7 +262,7 @@ LIST_FIELDS = ['li', 'ls', 'm', 'i', 'inner']
                                          for x in _accepting(['E.%s@container' % f for f in LIST_FIELDS]) for k in range(3)]
                            if hx.ASPECT not in ('C02', 'C10') or it in ('E.li/0', 'E.ls/0', 'E.m/1')],
             bound='example value that is (0) a list (<= 2 items) (1) a map (keys from {k, kk}) of null/bool/int/string(<= 2), '
-                  '(2) a scalar, for a list / map / scalar / struct typed field', outside=_OUT, budget=(200, 600))
+                  '(2) a scalar, for a list / map / scalar / struct typed field', outside=_OUT, budget=(400, 900))
 def container_example(a: Union[None, bool, int, str], b: Union[None, bool, int, str], n: int) -> bool:
     """
     pre: 0 <= n <= 2
@@ -287,7 +287,7 @@ REF_FIELDS = ['inner', 'oinner', 'un', 'i', 'li']
 
 @hx.harness(props=['C01', 'C02', 'C03', 'C10'], targets=_TG, items=lambda: [x.split('@')[0] for x in _accepting(['E.%s@ref' % f for f in REF_FIELDS])],
             bound='example value that is a reference to a label from {default, other, numex, v, zz, i}, for struct / '
-                  'nullable struct / union / int / list typed fields', outside=_OUT, budget=(100, 300))
+                  'nullable struct / union / int / list typed fields', outside=_OUT, budget=(300, 900))
 def ref_example(k: int, present: bool) -> bool:
     """
     pre: 0 <= k < len(LABELS)
